@@ -185,6 +185,8 @@ class SchemaCfg:
     max_fid: int = 40
     shuffle_ids: bool = True
     dup_ids: bool = False  # occasionally two fields of a struct share an id (stable order expected everywhere)
+    self_named_field: bool = False  # occasionally a field is spelled exactly like its struct (separate namespaces)
+    wrap16_ids: bool = False  # occasionally two field ids are congruent modulo 65536 (ids are 32-bit)
     type_names: Optional[st.SearchStrategy] = None
     field_names: Optional[st.SearchStrategy] = None
     enum_item_names: Optional[st.SearchStrategy] = None
@@ -207,7 +209,7 @@ def field_ids(draw, n: int, max_fid: int, shuffle: bool, dup: bool = False) -> L
     return ids
 
 
-unit_text = st.text(alphabet="abcdefgCVAmsk/%^2 ", min_size=0, max_size=5)
+unit_text = st.text(alphabet="abcdefgCVAmsk/%^2 \u00b0\u00b5\u03a9", min_size=0, max_size=5)
 
 
 def _f64_exact(x: float) -> float:
@@ -225,6 +227,13 @@ def struct_decl(draw, name: str, cfg: SchemaCfg, enums: Sequence[str], structs: 
     n = draw(st.integers(cfg.min_fields, cfg.max_fields))
     fnames = draw(unique_names((cfg.field_names if cfg.field_names is not None else lower_ident), n, n))
     ids = draw(field_ids(n, cfg.max_fid, cfg.shuffle_ids, cfg.dup_ids))
+    if cfg.wrap16_ids and n >= 2 and draw(st.integers(0, 5)) == 0:
+        i, j = draw(st.lists(st.integers(0, n - 1), min_size=2, max_size=2, unique=True))
+        cand = ids[i] + 65536 * draw(st.integers(1, 3))
+        if cand not in ids:
+            ids[j] = cand
+    if cfg.self_named_field and draw(st.integers(0, 9)) == 0 and name not in fnames:
+        fnames[draw(st.integers(0, n - 1))] = name
     tstrat = types(cfg.types, enums, structs)
     fields = []
     for fname, fid in zip(fnames, ids):
@@ -282,10 +291,15 @@ class ValCfg:
     allow_long: bool = True
     magic_lengths: bool = True  # 255/256/257, 4092..4097, 8188/8192: block-size boundaries
     pad_blocks: bool = True  # stretch one top-level string/byte array so that the encoding is exactly one block
+    int_floats: bool = False  # a float field may be given a Python int (10 instead of 10.0), as callers do
 
 
 MAGIC_LENGTHS = [255, 256, 257, 4091, 4092, 4093, 4095, 4096, 4097, 8188, 8192]
-ascii_chars = st.characters(min_codepoint=0, max_codepoint=127)
+NON_ASCII = ["\u00b0", "\u00b5", "\u03a9", "\u00e9", "\u65e5", "\U0001f600", "\u00ff", "\u0100", "\u2028"]
+ascii_chars = st.one_of(st.characters(min_codepoint=0, max_codepoint=127), st.characters(min_codepoint=0, max_codepoint=127),
+                        st.characters(min_codepoint=0, max_codepoint=127), st.characters(min_codepoint=0, max_codepoint=127),
+                        st.characters(min_codepoint=0, max_codepoint=127), st.characters(min_codepoint=0, max_codepoint=127),
+                        st.characters(min_codepoint=0, max_codepoint=127), st.sampled_from(NON_ASCII))
 printable_chars = st.characters(min_codepoint=32, max_codepoint=126)
 
 
@@ -297,6 +311,9 @@ def value_for(s: M.Schema, t: M.Type, cfg: Optional[ValCfg] = None) -> st.Search
     if isinstance(t, M.I):
         lo, hi = -(1 << (t.n - 1)), (1 << (t.n - 1)) - 1
         return st.one_of(st.sampled_from(sorted({lo, -1, 0, hi, max(lo, -2), min(hi, 1)})), st.integers(lo, hi))
+    if isinstance(t, (M.F32, M.F64)) and cfg.int_floats:
+        base = value_for(s, t, ValCfg(finite_floats=cfg.finite_floats))
+        return st.one_of(base, base, base, base, base, st.sampled_from([0, 1, -1, 100, -3, 16777216]))
     if isinstance(t, M.F32):
         sp = [x for x in F32_SPECIAL if not cfg.finite_floats or (x == x and abs(x) != float("inf"))]
         return st.one_of(
